@@ -17,6 +17,7 @@ import Driver.C10
 import Driver.C13
 import Driver.C15
 import Driver.C16
+import Driver.C11
 
 open Driver
 
@@ -36,6 +37,7 @@ def dispatch (prop : String) (toks : List String) : String :=
   | "C13" => Driver.C13.handle toks
   | "C15" => Driver.C15.handle toks
   | "C16" => Driver.C16.handle toks
+  | "C11" => Driver.C11.handle toks
   | _ => "bad-prop"
 
 partial def loop (hin hout : IO.FS.Stream) : IO Unit := do
